@@ -6,7 +6,7 @@
 """
 import sys, os, json, subprocess, shutil, re
 ROOT = os.path.dirname(os.path.dirname(os.path.abspath(__file__)))
-SRC = "/tmp/mut"
+SRC = os.environ.get("MUT_SRC", "/tmp/mut")
 ENV = dict(os.environ, GOFLAGS="-mod=mod", GOPROXY="off", GOSUMDB="off", GOTOOLCHAIN="local")
 
 
